@@ -157,7 +157,22 @@ def svd(a: Arr, full_matrices=True):
     U = mat_arr(fn("svd_u", Mat, Mat)(t), (m, m) if full_matrices else (m, k), kind)
     st = fn("svd_s", Mat, Mat)(t)
     S = Arr(((k,),), lambda idx: _sv(st, idx[0][0]), "float", term=st)
-    Vt = mat_arr(fn("svd_vt", Mat, Mat)(t), (n, n) if full_matrices else (k, n), kind)
+    vt_t = fn("svd_vt", Mat, Mat)(t)
+    Vt = mat_arr(vt_t, (n, n) if full_matrices else (k, n), kind)
+    if is_pyint(n) and n <= 3 and kind != "complex":
+        # real orthogonal V for a matrix with few columns: rows of V^T are orthonormal (instances written out)
+        c = cur()
+        e = lambda i, j: fn("el_re", Mat, I, I, R)(vt_t, z3.IntVal(i), z3.IntVal(j))     # noqa: E731
+        for i in range(n):
+            for i2 in range(i, n):
+                dotp = sum((e(i, j) * e(i2, j) for j in range(n)), z3.RealVal(0))
+                c.fact(dotp == (1 if i == i2 else 0))
+            for j in range(n):
+                c.fact(z3.Not(fn("el_nan", Mat, I, I, B)(vt_t, z3.IntVal(i), z3.IntVal(j))))
+        for j in range(n):
+            for j2 in range(j, n):
+                dotp = sum((e(i, j) * e(i, j2) for i in range(n)), z3.RealVal(0))
+                c.fact(dotp == (1 if j == j2 else 0))
     return (U, S, Vt)
 
 
